@@ -64,6 +64,16 @@ def base(which="B1"):
             {"kind": "names", "ins": ins, "out": "wide", "covers": ["1" * 12 + " 1"], "cname": "nm12"},
         ]
         return {"name": "top5", "inputs": ["p"] + ins, "outputs": ["o1", "o2", "wide"], "items": items, "models": models[1:2]}
+    if which == "B6":  # bit 1 of a two-bit model port joined to another net; a cycle of .conn statements (its last statement joins what is already joined)
+        items = [
+            {"kind": "gate", "model": "BUF", "conns": [["I", "x"], ["O", "o1"]], "cname": "g0"},
+            {"kind": "conn", "a": "a[1]", "b": "x"},
+            {"kind": "conn", "a": "p", "b": "q"},
+            {"kind": "conn", "a": "q", "b": "r"},
+            {"kind": "conn", "a": "r", "b": "p"},
+            {"kind": "gate", "model": "BUF", "conns": [["I", "r"], ["O", "o2"]], "cname": "g1"},
+        ]
+        return {"name": "top6", "inputs": ["a[0]", "a[1]", "p"], "outputs": ["o1", "o2"], "items": items, "models": models[1:2]}
     raise KeyError(which)
 
 
@@ -136,7 +146,7 @@ engine_b.WORKERS[ID] = worker
 
 def cases(tier):
     out = []
-    for which in ("B1", "B2", "B3", "B4", "B5"):
+    for which in ("B1", "B2", "B3", "B4", "B5", "B6"):
         nitems = len(base(which)["items"])
         for order in itertools.permutations(range(nitems)):
             for models in ("after", "before", "none"):
